@@ -57,6 +57,27 @@ def cache_histories(vd, drv, wd, tier, rng):
         r = tlc.run_tlc("Cache", constants=c, spec="Spec", invariants=["HistoryIndependent"], workers=2, timeout=300)
         if r.violated != "HistoryIndependent":
             raise common.ToolError("Cache.tla: mutant %s not caught\n%s" % (pin, r.out[-1500:]))
+    # the bound on the length of the histories removed: Apalache discharges an inductive invariant ("a cache is
+    # empty or complete, never partial") for the same transition system with 1..4 units
+    import shutil, subprocess
+    ad = os.path.join(wd, "apalache-cache")
+    os.makedirs(ad, exist_ok=True)
+    shutil.copy(os.path.join(common.VERIF, "tla", "apalache", "CacheInd.tla"), ad)
+    for step in (["--init=Init", "--inv=IndInv", "--length=0"], ["--init=IndInv", "--inv=IndInv", "--length=1"],
+                 ["--init=IndInv", "--inv=HistoryIndependent", "--length=0"]):
+        try:
+            pr = subprocess.run(["apalache-mc", "check", "--cinit=CInit"] + step + ["CacheInd.tla"], cwd=ad, stdout=subprocess.PIPE,
+                                stderr=subprocess.STDOUT, timeout=600)
+            out = pr.stdout.decode("utf-8", "replace")
+        except subprocess.TimeoutExpired:
+            raise common.ToolError("apalache timed out on CacheInd.tla " + " ".join(step))
+        if "The outcome is: NoError" in out:
+            vd.cov["states"] += 1
+        elif "The outcome is: Error" in out:
+            vd.observe("model:cache:inductive step " + " ".join(step), {"output": out[-3000:]})
+        else:
+            raise common.ToolError("apalache failed on CacheInd.tla\n" + out[-2000:])
+    shutil.rmtree(ad, ignore_errors=True)
     nd = len(SHAPE)
     def did(u, d): return (u - 1) * nd + d
     def die(u, d):
@@ -307,7 +328,8 @@ def run(tier):
                      "shared Dwarf values; each slot's pulled sequence must be a prefix of a fresh parse-and-run on that "
                      "input and end where it ends; inputs must be unchanged; the design (private buffer per result, "
                      "shared op graph) is model-checked in tla/Api.tla; non-trivial = schedules with >= 2 yielded stacks; "
-                     "the caches a Dwarf value carries (root list, per-unit parent tables) are model-checked in tla/Cache.tla "
+                     "the caches a Dwarf value carries (root list, per-unit parent tables) are model-checked in tla/Cache.tla (histories up to the bound) "
+                     "and shown history independent for histories of any length by an inductive invariant discharged with Apalache (tla/apalache/CacheInd.tla) "
                      "and every history of ?root/parent questions from tla/CacheGen.tla (plus random longer ones) over a "
                      "generated 3-unit file is asked through one compiled query on one shared Dwarf value; every program is also "
                      "compiled in two opposite orders within one process and must mean what it means in a fresh process; "
